@@ -3,10 +3,14 @@
     The front ends are compositions of the stages modelled in this development. This file
     collects, per stage, the theorem that excludes a crash or a hang of that stage, for all
     inputs. It is partial and says so: the composition itself (a single [frontend_total]
-    over texts) is not stated because two links are not proved — that the parser's fuel
-    always suffices (no left recursion; measured, and tied by agreement with the real parser
-    incl. its read counters), and the preservation half of C01. Stack depth and wall-clock
+    over texts) is not stated as one theorem. The parser stage is now closed: for every token
+    list the plain and the memoising parser of the model terminate with fuel linear in the
+    number of tokens ([C04_parser_terminates], from a certificate of the oal grammar: which
+    productions consume a token when they succeed, and a rank that decreases along calls made
+    before anything was consumed, computed and checked by the kernel); the evaluator stage is
+    closed by C01 (type soundness, termination). Stack depth and wall-clock
     are run-time behaviour observed by the monitors (nesting depth 200, time limits). *)
+From Oal Require PegTerm GrammarTerm.
 From Oal Require Import Peg Grammar PegProofs GrammarProofs Tag Unify UnifyProofs Cycles CyclesProofs Loader LoaderProofs
   Text Position Lsp LspProofs Cast CastProofs.
 Local Open Scope nat_scope.
@@ -58,3 +62,13 @@ Theorem C04_document_change_never_panics : forall doc l sc ec w,
   (sc <= ec)%N -> apply_change doc (CIncr l sc l ec w) <> None.
 Proof. exact change_in_line_never_panics. Qed.
 Print Assumptions C04_document_change_never_panics.
+
+(** parser: never out of fuel, for every token list *)
+Theorem C04_parser_terminates : forall (toks : list N) n,
+  (length toks * (S GrammarTerm.OR * S GrammarTerm.OZ) + S (GrammarTerm.orank P_PROGRAM) * S GrammarTerm.OZ + 1 <= n)%nat ->
+  parse_pure n toks <> Fuel /\ fst (parse_memo n toks) <> Fuel.
+Proof. exact GrammarTerm.oal_parsers_terminate. Qed.
+Print Assumptions C04_parser_terminates.
+
+Example C04_parser_fuel_constants : (GrammarTerm.OR, GrammarTerm.OZ, GrammarTerm.orank P_PROGRAM) = (19, 26, 5)%nat.
+Proof. exact GrammarTerm.oal_fuel_constants. Qed.
